@@ -2,6 +2,7 @@
 # run_thorough.sh [ID...]: runs the thorough tier of the given (default: all) properties one after the other and prints one
 # summary line each; full output under build/thorough/<ID>.out. Evidence files are rewritten by the runs (tier=thorough).
 cd /verif; mkdir -p build/thorough
+[ -n "$(git -C /repo status --porcelain --untracked-files=no)" ] && { echo "/repo has uncommitted changes (a seed trial?): not starting"; exit 2; }
 [ $# -eq 0 ] && set -- C01 C02 C03 C04 C05 C06 C07 C08 C09 C10 C11 C12 C13 C14 C15 C16 C17 C18 C19 C20
 for i in "$@"; do
   t0=$(date +%s)
